@@ -240,7 +240,9 @@ def shrink(c):
 MANIFEST = {
     "text": "Proof: C06_kernel_efficiency / C06_neighbor_efficiency (the K=1 scores of all units sum to the mean over "
             "validation points of nearest-unit utility minus null, every size, exact arithmetic, through C01 and the "
-            "Shapley efficiency axiom) and C06_shapley_efficiency (any game: bruteforce; montecarlo via C04). Tied to "
+            "Shapley efficiency axiom) C06_shapley_efficiency (any game), C06_bruteforce_efficiency (the MODEL of the bruteforce loop, every provenance and "
+            "utility incl. failing coalitions), C06_add_efficiency (the MODEL of compute_shapley_add, any K, any conjunctive "
+            "provenance, distinct distances) and C06_mc_efficiency (untruncated montecarlo on every run). Tied to "
             "the code at API level; the precision clause ('does not degrade with the number of rows') is PARTIAL: no "
             "a-priori rounding bound is proved, it is measured on every run up to 8k (quick) / 65 536 (thorough) rows "
             "against exact rational arithmetic with a size-independent tolerance of 1e-9*max|utility|.",
